@@ -10,6 +10,18 @@ CHECKS = {
     text="Generated-input search (60k quick / 1M thorough cases per run) with an exact two-directional token oracle: the annotated fn must be the literal prefix of the expansion, module items the literal prefix of the emitted module body, impl-block items the literal body of the emitted inherent impl. Exploration, not proof: it establishes the property on every generated program and shrinks any counterexample to a replay file.",
     note="Trusts proc_macro2's fallback lexer/printer to agree with rustc's (cross-checked by the E2 recorder leg) and that the mechanical port of lib.rs (engine/port/build.rs) follows the working tree; inputs that the macro rejects are outside the quantifier.",
     design="§2 C02"),
+ "C15": dict(
+    technique="property-based testing + coverage-guided fuzzing of (attribute tokens, item) pairs; oracle: no panic, output parses, documented misuses get their own diagnostic",
+    engine="E1+E3",
+    text="Generated-input search over well-formed and malformed option lists and items of every kind (200k quick / 4M thorough cases, plus a libFuzzer campaign in the thorough tier) with catch_unwind + syn::File parsing of the output + per-misuse message-category matching as the oracle. Exploration: a panic or unparsable expansion anywhere in the generated space is found and shrunk; absence elsewhere is not proved.",
+    note="syn::File stands in for rustc's parser (inputs syn cannot parse as an item are discarded, not judged); message categories are matched on keywords so rewording is not an alarm; the undocumented `debug` option is excluded because it prints to stdout.",
+    design="§2 C15"),
+ "C17": dict(
+    technique="metamorphic property-based testing: pairs of invocations declared equivalent by the statement must expand to identical token trees; option x target acceptance matrix",
+    engine="E1",
+    text="Generated metamorphic pairs (bare==true, false==omitted, option order, variant==option shorthand) over generated fn/mod/trait items and duplicate-free option sets, compared by exact token equality, plus the documented acceptance matrix (each option accepted on its documented targets, rejected elsewhere). Exploration over ~100k pairs quick / 2M thorough.",
+    note="The crate-feature half of the statement is modelled in E1 by the `_unimock` macro variants (what the facade selects); the facade's own feature->variant mapping is observed through compiled clients in C10. Don't-cares: `no_deps` on a module, `debug`.",
+    design="§2 C17"),
 }
 
 NOT_YET = "check not built yet (build in progress; see DESIGN.md §2 for the planned oracle)"
